@@ -1068,6 +1068,10 @@ func (fr *Frame) execGo(ins *ssa.Go, st *State) {
 	cc := ins.Common()
 	key, _ := fr.calleeKey(cc)
 	vc.note("go statement at %s: spawned function %s is verified separately; no interleaving is explored", vc.posOf(ins.Pos()), key)
+	// `at call F: assert e` clauses also apply where F is spawned
+	if key != "" {
+		fr.atCallAsserts(key, cc, st, ins.Pos())
+	}
 	if spec := vc.lookupSpec(key); spec != nil {
 		// check the precondition of the spawned function
 		names, typs := vc.formals(spec, cc)
